@@ -283,16 +283,16 @@ theorem ctx_sound {i : Input} {al : AList} (w : ALwf i al) {cm ck : CtxFeature} 
   obtain ⟨hteq, hligNum⟩ := hentry
   -- the mark side
   have hcls' : cls ∈ clsOf i al := hcls
-  obtain ⟨aM, ⟨asm, hasm, ham⟩, hmark, _, hcn, hrx, hry, hsM⟩ := clsOf_mem w hcls' hr
+  obtain ⟨aM, ⟨asm, hasm, ham⟩, hmark, _, hcn, hgn, hrx, hry, hsM⟩ := clsOf_mem w hcls' hr
   rw [hrm] at hasm
   -- same class ⇒ same key
   have hkm := alookup_some_mem hcls0
   rw [kmOf_eq w] at hkm
-  obtain ⟨n, _, hnk⟩ := mem_map.mp hkm
+  obtain ⟨n, hnmem, hnk⟩ := mem_map.mp hkm
   simp only [Prod.mk.injEq] at hnk
   have hn : n = aM.name := by
-    have : "MC" ++ n = "MC" ++ aM.name := by rw [hnk.2, ← hcn, ← htc, hteq]
-    exact (String.append_right_inj "MC").mp this
+    have : cnOf i al n = cnOf i al aM.name := by rw [hnk.2, ← hcn, ← htc, hteq]
+    exact (makeClasses_meOf w).2 n hnmem aM.name hgn this
   have hkeys : aM.key = t0.2.2.key := by rw [← hnk.1, hn, keyOfMarkName_eq hsM hmark]
   -- source anchors
   have heg' : t0.2.1 = b := by
